@@ -331,7 +331,64 @@ impl<'a> Model<'a> {
         for cell in cells {
             self.shift_cell_formula(cell.index, cell.row, cell.column, displace_data)?;
         }
+        self.displace_defined_names(displace_data);
         Ok(())
+    }
+
+    /// Shifts the references in the formulas of the defined names, like the formulas of the cells.
+    fn displace_defined_names(&mut self, displace_data: &DisplaceData) {
+        if self.workbook.defined_names.is_empty() {
+            return;
+        }
+        let context = CellReferenceRC {
+            sheet: self
+                .workbook
+                .worksheets
+                .first()
+                .map(|ws| ws.get_name())
+                .unwrap_or_default(),
+            row: 1,
+            column: 1,
+        };
+        // Defined name formulas are stored in English, so parse them with the default
+        // locale/language regardless of the active ones.
+        let locale = self.locale;
+        let language = self.language;
+        self.parser.set_locale(get_default_locale());
+        self.parser.set_language(get_default_language());
+        let mut changed = false;
+        for index in 0..self.workbook.defined_names.len() {
+            let formula = self.workbook.defined_names[index].formula.clone();
+            let trimmed = formula.trim();
+            let (prefix, body) = match trimmed.strip_prefix('=') {
+                Some(body) => ("=", body),
+                None => ("", trimmed),
+            };
+            let node = self.parser.parse(body, &context);
+            let plain = to_localized_string(
+                &node,
+                &context,
+                get_default_locale(),
+                get_default_language(),
+            );
+            let displaced = to_string_displaced(
+                &node,
+                &context,
+                displace_data,
+                get_default_locale(),
+                get_default_language(),
+            );
+            // only touch the names whose references moved
+            if plain != displaced {
+                self.workbook.defined_names[index].formula = format!("{prefix}{displaced}");
+                changed = true;
+            }
+        }
+        self.parser.set_locale(locale);
+        self.parser.set_language(language);
+        if changed {
+            self.parse_defined_names();
+        }
     }
 
     /// Updates the `range` field and formula fields of every CF rule on `sheet` according to `displace_data`.
